@@ -25,6 +25,7 @@ import (
 	"github.com/alephium/wormhole-fork/node/pkg/vaa"
 	ethcommon "github.com/ethereum/go-ethereum/common"
 	"go.uber.org/zap"
+	"go.uber.org/zap/zaptest/observer"
 	"google.golang.org/protobuf/proto"
 )
 
@@ -57,6 +58,16 @@ type phRun struct {
 	loop    map[string][]*gossipv1.SignedObservation
 	signed  map[string][]byte // digest name -> bytes of the observation message emitted when signing
 	bodies  map[string]*vhVAA // digest name -> body
+	// run-loop mode: inputs go through the channels of the real Processor.Run select loop
+	loopMode  bool
+	lockC     chan *common.MessagePublication
+	setC      chan *common.GuardianSet
+	injectC   chan *vaa.VAA
+	signedInC chan *gossipv1.SignedVAAWithQuorum
+	tickC     chan time.Time
+	runDead   chan string // receives the panic text (or "returned") when Run ends
+	logs      *observer.ObservedLogs
+	seenOwn   int
 	down    bool                   // the store was closed by a StoreDown step
 	lastDB  map[string]interface{} // last projection of the store while it answered
 	ownDB   *db.Database
@@ -217,7 +228,7 @@ func (r *phRun) projState(out []interface{}, panicked string) map[string]interfa
 			loop[d] = len(l)
 		}
 	}
-	s := map[string]interface{}{"gs": r.projSet(p.gs), "agg": agg, "db": dbm, "loop": loop, "out": out}
+	s := map[string]interface{}{"gs": r.projSet(p.gs), "gst": r.projSet(p.gst.Get()), "agg": agg, "db": dbm, "loop": loop, "out": out}
 	if panicked != "" {
 		s["panic"] = panicked
 	}
@@ -295,6 +306,9 @@ func (r *phRun) drain(signStep bool) []interface{} {
 		default:
 		}
 		break
+	}
+	if r.loopMode {
+		return out // in run-loop mode only Run itself receives from obsvC
 	}
 	// own signatures looped back (sent from a goroutine): wait for as many as observations were signed.
 	for i := 0; i < nObs; i++ {
@@ -430,10 +444,12 @@ func (r *phRun) step(st vhStep) {
 	ctx := r.w.ctx
 	signStep := false
 	var call func()
+	var send func() bool // run-loop mode: deliver through the channel Run selects on
 	switch st.Ev {
 	case "SetUpdate":
 		gs := r.set(vhMap(st.A, "set"))
 		call = func() { p.gs = gs; p.gst.Set(p.gs) } // the two statements of the setC case of Run
+		send = func() bool { return r.deliver(func(d <-chan time.Time) bool { select { case r.setC <- gs: return true; case <-d: return false } }) }
 	case "LocalMessage":
 		m := vhMap(st.A, "m")
 		bd := r.bodyFor(m)
@@ -443,6 +459,7 @@ func (r *phRun) step(st vhStep) {
 			EmitterAddress: vaa.Address(bd.Emitter), Payload: bd.Payload}
 		signStep = true
 		call = func() { p.handleMessage(ctx, k) }
+		send = func() bool { return r.deliver(func(d <-chan time.Time) bool { select { case r.lockC <- k: return true; case <-d: return false } }) }
 	case "Inject":
 		m := vhMap(st.A, "v")
 		bd := r.bodyFor(m)
@@ -451,10 +468,15 @@ func (r *phRun) step(st vhStep) {
 			TargetChain: vaa.ChainID(bd.TChain), EmitterAddress: vaa.Address(bd.Emitter), Payload: bd.Payload}
 		signStep = true
 		call = func() { p.handleInjection(ctx, v) }
+		send = func() bool { return r.deliver(func(d <-chan time.Time) bool { select { case r.injectC <- v: return true; case <-d: return false } }) }
 	case "Observation":
 		o := r.obs(vhMap(st.A, "o"))
 		call = func() { p.handleObservation(ctx, o) }
+		send = func() bool { return r.deliver(func(d <-chan time.Time) bool { select { case r.obsvC <- o: return true; case <-d: return false } }) }
 	case "Loopback", "Loopback?":
+		if r.loopMode {
+			return // the own observation reaches Run by itself; it is logged with the step that signed
+		}
 		d := vhStr(st.A, "d")
 		l := r.loop[d]
 		if len(l) == 0 && st.Ev == "Loopback?" {
@@ -472,6 +494,7 @@ func (r *phRun) step(st vhStep) {
 	case "InboundVAA":
 		m := r.inbound(vhMap(st.A, "w"))
 		call = func() { p.handleInboundSignedVAAWithQuorum(ctx, m) }
+		send = func() bool { return r.deliver(func(d <-chan time.Time) bool { select { case r.signedInC <- m: return true; case <-d: return false } }) }
 	case "Advance":
 		k := time.Duration(vhInt(st.A, "k", 0)) * time.Second
 		call = func() {
@@ -484,6 +507,7 @@ func (r *phRun) step(st vhStep) {
 		}
 	case "CleanupTick":
 		call = func() { p.handleCleanup(ctx) }
+		send = func() bool { return r.deliver(func(d <-chan time.Time) bool { select { case r.tickC <- time.Now(): return true; case <-d: return false } }) }
 	case "StoreDown":
 		if r.ownDB == nil {
 			r.w.t.Fatalf("StoreDown in a scenario that does not own its store")
@@ -491,6 +515,10 @@ func (r *phRun) step(st vhStep) {
 		call = func() { r.ownDB.Close(); r.down = true }
 	default:
 		r.w.t.Fatalf("unknown scenario event %q", st.Ev)
+	}
+	if r.loopMode && send != nil {
+		r.stepLoop(st, send, signStep)
+		return
 	}
 	panicked := ""
 	func() {
@@ -503,6 +531,104 @@ func (r *phRun) step(st vhStep) {
 	}()
 	out := r.drain(signStep)
 	r.w.trace.Emit(r.sc, st.Ev, st.A, r.projState(out, panicked))
+}
+
+// ---- run-loop mode -------------------------------------------------------------------------------------------------
+
+// deliver performs one channel send to the Run loop; false when Run is gone or does not take it within the deadline.
+func (r *phRun) deliver(try func(deadline <-chan time.Time) bool) bool {
+	return try(time.After(5 * time.Second))
+}
+
+// sync returns once every handler started before it has finished: Run can only receive the (undecodable, hence
+// ignored) sentinel VAA after it returned to its select.
+func (r *phRun) sync() bool {
+	for i := 0; i < 2; i++ {
+		ok := r.deliver(func(d <-chan time.Time) bool {
+			select {
+			case r.signedInC <- &gossipv1.SignedVAAWithQuorum{Vaa: nil}:
+				return true
+			case <-d:
+				return false
+			}
+		})
+		if !ok {
+			return false
+		}
+	}
+	return true
+}
+
+func (r *phRun) ownObservationsHandled() int {
+	self := hex.EncodeToString(r.w.keys.Addr(r.w.self).Bytes())
+	n := 0
+	for _, e := range r.logs.FilterMessage("received observation").All() {
+		if e.ContextMap()["addr"] == self {
+			n++
+		}
+	}
+	return n
+}
+
+func (r *phRun) deadText() string {
+	select {
+	case t := <-r.runDead:
+		return t
+	case <-time.After(2 * time.Second):
+		return "processor loop stopped taking input (no panic recorded)"
+	}
+}
+
+func splitOut(out []interface{}) (first, rest []interface{}) {
+	first, rest = []interface{}{}, []interface{}{}
+	for _, o := range out {
+		if o.(map[string]interface{})["kind"] == "obs" {
+			first = append(first, o)
+		} else {
+			rest = append(rest, o)
+		}
+	}
+	return
+}
+
+func (r *phRun) stepLoop(st vhStep, send func() bool, signStep bool) {
+	r.seenOwn = r.ownObservationsHandled() // baseline: observations in the node's own name handled so far
+	if !send() || !r.sync() {
+		r.w.trace.Emit(r.sc, st.Ev, st.A, r.projState(r.drain(false), r.deadText()))
+		r.loopMode = false // the loop is gone: nothing more can be delivered
+		r.runDead = nil
+		return
+	}
+	out := r.drain(signStep)
+	signed := false
+	for _, o := range out {
+		if m := o.(map[string]interface{}); m["kind"] == "obs" && m["resend"] == false && signStep {
+			signed = true
+		}
+	}
+	if !signed {
+		r.w.trace.Emit(r.sc, st.Ev, st.A, r.projState(out, ""))
+		return
+	}
+	// the handler signed: its own observation travels back to Run on obsvC by itself; wait until Run handled it
+	deadline := time.Now().Add(5 * time.Second)
+	for r.ownObservationsHandled() <= r.seenOwn && time.Now().Before(deadline) {
+		if !r.sync() {
+			break
+		}
+	}
+	handled := r.ownObservationsHandled() > r.seenOwn
+	r.sync()
+	out2 := r.drain(false)
+	first, rest := splitOut(append(out, out2...))
+	d := first[0].(map[string]interface{})["d"].(string)
+	// the state right after the signing handler cannot be read without racing the loop: that line is applied but not compared
+	r.w.trace.Emit(r.sc, st.Ev, st.A, map[string]interface{}{"nocmp": true, "out": first})
+	if handled {
+		r.w.trace.Emit(r.sc, "Loopback", map[string]interface{}{"d": d}, r.projState(rest, ""))
+	} else {
+		r.w.trace.Emit(r.sc, "LoopbackMissing", map[string]interface{}{"d": d}, r.projState(rest, ""))
+	}
 }
 
 func (w *phWorld) runScenario(sc vhScenario) {
@@ -528,9 +654,40 @@ func (w *phWorld) runScenario(sc vhScenario) {
 			break
 		}
 	}
-	r.p = NewProcessor(w.ctx, store, nil, nil, r.sendC, r.obsvC, r.reqC, nil, nil,
+	if os.Getenv("VERIF_RUNLOOP") != "" {
+		r.loopMode = true
+		r.lockC = make(chan *common.MessagePublication)
+		r.setC = make(chan *common.GuardianSet)
+		r.injectC = make(chan *vaa.VAA)
+		r.signedInC = make(chan *gossipv1.SignedVAAWithQuorum)
+		r.obsvC = make(chan *gossipv1.SignedObservation) // unbuffered: only Run receives
+		r.tickC = make(chan time.Time)
+		r.runDead = make(chan string, 1)
+	}
+	r.p = NewProcessor(w.ctx, store, r.lockC, r.setC, r.sendC, r.obsvC, r.reqC, r.injectC, r.signedInC,
 		&ecdsasigner.ECDSAPrivateKey{Value: w.keys.Key(w.self)}, gst,
 		reporter.EventListener(zap.NewNop()), nil, phGovChain, phGovEmitter)
+	if r.loopMode {
+		core, logs := observer.New(zap.InfoLevel)
+		r.logs = logs
+		r.p.logger = zap.New(core)
+		ctx, cancel := context.WithCancel(w.ctx)
+		defer cancel()
+		go func() {
+			defer func() {
+				if x := recover(); x != nil {
+					r.runDead <- fmt.Sprintf("%v\n%s", x, debug.Stack())
+				}
+			}()
+			err := r.p.Run(ctx)
+			r.runDead <- fmt.Sprintf("Run returned: %v", err)
+		}()
+		// Run creates its 30-s ticker first; once it is in its loop, put a ticker the harness controls in its place
+		if r.sync() {
+			r.p.cleanup = &time.Ticker{C: r.tickC}
+			r.sync()
+		}
+	}
 	w.trace.Emit(sc.ID, "Reset", map[string]interface{}{"self": w.self}, nil)
 	names := make([]string, 0, len(sc.Bodies))
 	for d := range sc.Bodies {
